@@ -142,7 +142,7 @@ def make_spec(g, allow=()):
     r = g.r
     # (names testing can produce that do not start with `Test`: fuzz targets, benchmarks, examples - since the
     # repair of D11 Clean recognises their headers like any other)
-    names = g.names(r.randint(1, 4), tuple(allow) + ('unrec',))
+    names = g.names(r.randint(1, 4), tuple(allow) + ('unrec', 'pct'))
     stale_names = [n for n in [b'TestGone', b'TestGone/sub', b'TestA/x/old', b'TestOld1', b'TestOld10', b'TestB/gone'] if n not in names]
     r.shuffle(stale_names)
     # the Dir option as the user wrote it: not always in shortest form
@@ -257,6 +257,13 @@ def make_spec(g, allow=()):
     # a test whose snapshot was never written (a Config with Update(false), or CI): the call is registered, fails
     # with "snapshot not found" and creates nothing, so Clean meets a REGISTERED file that does not exist - in a
     # directory that does not exist either, or next to the other files
+    # standalone snapshots of some tests next to the multi-entry file of cfg 1 (which has neither Filename nor Ext):
+    # every execution addresses <name>_1.snap, <name>_2.snap ... again; Clean must find them registered - also
+    # when the name contains a `%` (the path is a format for the ordinal only)
+    sa = {}
+    for n, calls in tests:
+        if calls and r.random() < 0.3:
+            sa[n] = [b'standalone %d of ' % k + n for k in range(1, r.randint(1, 2) + 1)]
     fresh = None
     if b'TestFresh' not in names and r.random() < 0.2:
         fresh = (r.choice(['fresh/dir', sd]), 'neverwritten', r.choice([1, 2]))
@@ -266,7 +273,7 @@ def make_spec(g, allow=()):
     k = r.random()
     crlf = r.choice(suites.CRLF_MODES) if k < 0.15 and not ends else None
     gaps = 0.15 <= k < 0.27 and not ends
-    return dict(cfgs=cfgs, nfiles=nfiles, tests=tests, stale=stale, skipped=skipped, ends=ends, fresh=fresh, crlf=crlf, gaps=gaps,
+    return dict(cfgs=cfgs, nfiles=nfiles, tests=tests, stale=stale, skipped=skipped, ends=ends, fresh=fresh, sa=sa, crlf=crlf, gaps=gaps,
                 count=r.choice([1, 1, 2, 3]), shuffle=r.randrange(1 << 30),
                 stale_files=r.sample(['old_test.snap', 'x.snapshot', 'gone_1.snap', 'a.snap.json'], r.choice([0, 0, 1, 2])),
                 decoys=r.random() < 0.6,
@@ -374,6 +381,18 @@ def render(tag, spec, oracles):
     # directories Clean visits: those of files some call addresses
     dirs = sorted(set(suffix_of(c).rsplit('/', 1)[0] for cfgno, c in enumerate(spec['cfgs'], 1)
                       if any(l for _, _, l in per[cfgno])))
+    sa_files = {}
+    d1 = suffix_of(spec['cfgs'][0]).rsplit('/', 1)[0]
+    for n, vals in (spec.get('sa') or {}).items():
+        if n in spec.get('skipped', ()):
+            continue
+        for k, v in enumerate(vals, 1):
+            rel = d1.encode() + b'/' + n.replace(b'/', b'_') + b'_%d.snap' % k
+            sa_files[rel] = v
+            w.add('fsput %s %s' % (hx(rel), hx(v)))
+    w.meta['sa_files'] = sa_files
+    if sa_files and d1 not in dirs:
+        dirs = sorted(dirs + [d1])
     if spec.get('fresh'):
         # the directory of the never-written (but registered) file is visited by Clean like any addressed one
         fd = posixpath.normpath(spec['fresh'][0])
@@ -406,6 +425,8 @@ def render(tag, spec, oracles):
                 continue
             for cfgno, v in calls:
                 w.add('snap %d %d %s' % (cfgno, texec, hx(v)), ('prepared-entry-passes', exp_silent))
+            for v in (spec.get('sa') or {}).get(n, ()):
+                w.add('sasnap 1 %d %s' % (texec, hx(v)), ('prepared-standalone-file-passes', exp_silent))
             w.add('end %d' % texec)
         if spec.get('fresh'):
             texec += 1
@@ -556,6 +577,13 @@ def o_stale_reported(w):
         visited = any(d == root + ('/' + x).encode() for x in w.meta['dirs']) if root is not None else False
         addressed = any(file_of(w, c, before) == p for c in w.meta['per'] if any(l for _, _, l in w.meta['per'][c]))
         if addressed:
+            continue
+        sa_hit = [rel for rel in w.meta.get('sa_files', {}) if root is not None and p == root + b'/' + rel]
+        if sa_hit:
+            if p not in after or after[p] != before[p]:
+                return 'standalone file %r, matched in this run, was %s' % (base, 'removed' if p not in after else 'changed')
+            if p in out:
+                return 'standalone file %r, matched in this run, is listed as obsolete' % base
             continue
         if visited and b'.snap' in base:
             if p not in out:
